@@ -192,8 +192,72 @@ def stack(ctx, layers, ops):
             lg.setLevel(old[0])
 
 
+def reconfigure(ctx, nwrites):
+    """the logger name, level and message are attributes: a record goes where they point WHEN THE WRITE HAPPENS"""
+    pool = RecPool(demand=ctx.num("demand"), supply=ctx.num("supply"), utilisation=ctx.num("util"),
+                   allocation=ctx.num("alloc"))
+    ctx.assume(pool.supply >= 0)
+    names = [n for n in NAMES if n != ""]
+    n0 = names[ctx.choice("name0", len(names))]
+    l0 = LEVELS[ctx.choice("level0", len(LEVELS))]
+    L = Logger(pool, name=n0, level=l0) if n0 is not None else Logger(pool, level=l0)
+    sink = []
+
+    class H(logging.Handler):
+        def emit(self, record):
+            if record.msg is L.message:
+                sink.append(record)
+
+    default = type(pool).__qualname__
+    channels = sorted({default if n is None else n for n in names})
+    cleanup = []
+    try:
+        for c in channels:
+            lg = logging.getLogger(c)
+            h = H(level=1)
+            cleanup.append((lg, h, (lg.level, lg.propagate, lg.disabled)))
+            lg.addHandler(h)
+            lg.setLevel(1)
+            lg.propagate = False
+            lg.disabled = False
+        name, level = n0, l0
+        for k in range(nwrites):
+            tag = "write%d: " % k
+            what = ctx.choice("reconfigure_%d" % k, 4)  # nothing, name, level, message
+            if what == 1:
+                name = names[ctx.choice("name_%d" % k, len(names))]
+                L.name = name
+            elif what == 2:
+                level = LEVELS[ctx.choice("level_%d" % k, len(LEVELS))]
+                L.level = level
+            elif what == 3:
+                L.message = "reconfigured %(value)s / %(demand)s"
+            expected = default if name is None else name
+            ctx.require(L.name == expected, tag + "the Logger reports the configured name")
+            del sink[:]
+            v = ctx.num("v%d" % k)
+            d0 = pool.demand
+            L.demand = v
+            ctx.observe(tag + "channels", [r.name for r in sink])
+            ctx.require(len(sink) == 1, tag + "exactly one record per demand write")
+            if len(sink) != 1:
+                return
+            rec = sink[0]
+            ctx.require(rec.name == expected and rec.levelno == level,
+                        tag + "record on the logger and level configured at the time of the write")
+            ctx.require(rec.msg is L.message, tag + "record uses the configured message")
+            ctx.require(isinstance(rec.args, dict) and rec.args["value"] == v and same(rec.args["demand"], d0),
+                        tag + "record carries the new value and the demand from before the write")
+        ctx.reach()
+    finally:
+        for lg, h, old in cleanup:
+            lg.removeHandler(h)
+            lg.level, lg.propagate, lg.disabled = old
+            lg.setLevel(old[0])
+
+
 def tasks(tier, seed):
-    out = []
+    out = [Task(MOD, "reconfigure", dict(nwrites=2 if tier == "quick" else 3), model="R", weight=200, witness_every=3)]
     dmax = 2 if tier == "quick" else 3
     nops = 2 if tier == "quick" else 3
     for d in range(0, dmax + 1):
